@@ -28,11 +28,11 @@ def run(ctx):
     if changed:
         ctx.broken.append('tie T: the interface of the regenerated duetime_cmp differs from the one Props/C02Tie.lean is stated against (' + '; '.join(changed)[:600] + ')')
     else:
-        mods, req = mods + ['Librfn.Props.C02Tie'], req + TIE
+        mods, req = mods + ['Librfn.Props.C02TieCmp', 'Librfn.Props.C02Tie'], req + TIE
 
     def allow(t, a):
         return t.startswith('Librfn.C02.Tie.') and '._native.bv_decide.ax_' in a and (
-            a.startswith('Librfn.C02.Tie.duetime_cmp_generated.') or a.startswith('Librfn.C02.Tie.fibre_timeout_generated.')
+            a.startswith('Librfn.C02.Tie.duetime_cmp_generated') or a.startswith('Librfn.C02.Tie.fibre_timeout_generated')
             or a.startswith('Librfn.Sched.L.cyclecmp32_tie.'))
     sc.run_sched(ctx, META, mods, req, 'C02', allow_extra_axioms=allow)
     ctx.cov['tie_T_generated_units'] = {'FibreSeq': ['duetime_cmp', 'fibre_timeout (list functions external, cyclecmp32 inlined)']}
